@@ -16,6 +16,7 @@
        acting independently per (m,l), states carrying a time.
     5. A small executable test bench (diagonal ODE on lists) for extraction. *)
 From Dino Require Import Base.Ops Base.Sums Model.Deriv.
+From Coq Require Import Qround.
 Local Open Scope F_scope.
 
 (** * 1. vector spaces, step terms *)
@@ -281,6 +282,26 @@ Section Modal.
   (** a filter acts on the array leaves only (shape rule: see Thm) *)
   Definition timed_filter {V} (f : V -> V) (x : V * F) : V * F := (f (fst x), snd x).
 End Modal.
+
+(** * time_integration.maybe_fix_sim_time_roundoff:
+        state.sim_time = dt * jnp.round(state.sim_time / dt)
+    [rnd] is the rounding to an integer (jnp.round: to nearest, ties to even);
+    [rhe] is its exact model on rationals. *)
+Definition rhe (x : Q) : Z :=
+  let f := Qfloor x in
+  match Qcompare (x - inject_Z f) (1 # 2) with
+  | Lt => f
+  | Gt => (f + 1)%Z
+  | Eq => if Z.even f then f else (f + 1)%Z
+  end.
+
+Section FixTime.
+  Context {F : Type} {o : Ops F}.
+  Definition fix_time (rnd : F -> Z) (dt t : F) : F := dt * fofZ (rnd (t / dt)).
+  (** as a state filter: only the time leaf is touched *)
+  Definition fix_time_filter {V} (rnd : F -> Z) (dt : F) (x : V * F) : V * F :=
+    (fst x, fix_time rnd dt (snd x)).
+End FixTime.
 
 (** * 5. executable test bench: diagonal ODE on lists *)
 Section Bench.
